@@ -20,7 +20,7 @@ def current : Cfg :=
 theorem current_live :
     if current.subBeforeStart = true ∧ current.instSubBeforeStart = true then
       ∀ (su : Setup) (s : State), Reach current su s → Quiescent current su s → s.panicked = false →
-        (∀ m ∈ s.members, m.ceased = true) → (∀ wk ∈ s.wakers, wk.done = true) → ∀ w, WaitOpen s w → WaitTrue s w
+        (∀ m ∈ s.members, m.ceased = true) → ∀ w, WaitOpen s w → WaitTrue s w
     else
       (current.subBeforeStart = false ∧
         Quiescent current oneTrivial (exec current oneTrivial schedFastMissed) ∧
@@ -32,7 +32,7 @@ theorem current_live :
         WaitOpen (exec current throwAndWaiting schedFastInstanceMissed) 0 ∧
         ¬ WaitTrue (exec current throwAndWaiting schedFastInstanceMissed) 0) := by
   split
-  · next h => exact fun su s hr hq hp hall hk w hw => set_complete_live current su h.1 h.2 s hr hq hp hall hk w hw
+  · next h => exact fun su s hr hq hp hall w hw => set_complete_live current su h.1 h.2 s hr hq hp hall w hw
   · next h =>
     by_cases h1 : current.subBeforeStart = true
     · have h2 : current.instSubBeforeStart = false := by
@@ -55,6 +55,34 @@ theorem current_reentrant :
   · next h =>
     have h' : current.closeOnce = false := by simpa using h
     exact ⟨C18_counterexample_double_close current h', C18_counterexample_double_close_concurrent current h'⟩
+
+/-- C18 (with its two structural restrictions, see `C18_core`) on the current facts — or one of the witnesses -/
+theorem current_verdict :
+    if current.subBeforeStart = true ∧ current.instSubBeforeStart = true ∧ current.closeOnce = true then C18_core current
+    else ¬ C18_core current := by
+  split
+  · next h => exact C18_partial current h.1 h.2.1 h.2.2
+  · next h =>
+    intro hc
+    by_cases h3 : current.closeOnce = true
+    · by_cases h1 : current.subBeforeStart = true
+      · have h2 : current.instSubBeforeStart = false := by
+          cases hb : current.instSubBeforeStart with
+          | false => rfl
+          | true => exact absurd ⟨h1, hb, h3⟩ h
+        obtain ⟨q, _, c, _, d, e⟩ := C18_counterexample_fast_instance_missed current h2
+        exact e ((hc throwAndWaiting _ (reach_exec (cfg := current) schedFastInstanceMissed)).2.1 q c 0 d)
+      · obtain ⟨q, _, c, _, d, e⟩ := C18_counterexample_fast_process_missed current (by simpa using h1)
+        exact e ((hc oneTrivial _ (reach_exec (cfg := current) schedFastMissed)).2.1 q c 0 d)
+    · have := (hc oneTrivial _ (reach_exec (cfg := current) schedDoubleWait)).2.2.1
+      rw [C18_counterexample_double_close current (by simpa using h3)] at this
+      cases this
+
+/-- the full statement (`C18_statement`) is false on the current facts, as on all others -/
+theorem current_full_statement_refuted : ¬ C18_statement current := C18_not_holds current
+
+/-- the model registers a watcher with the wait group and spawns it in one step: `wg.Add(1)` precedes the `go` -/
+theorem current_add_before_spawn : Bpmn.Gen.C18.wgAddBeforeSpawn = some true := by decide
 
 /-- the model takes a watcher's send to `ps.mch` as not blocking while `run` is alive: the channel is buffered for every
 number (≥ 1) of executable processes; `ps.done` exists (its capacity is irrelevant: it is only ever closed) -/
